@@ -261,6 +261,7 @@ fn main() {
             steps: 30,
             low_quality: false,
             avoid_coincident: kind.is_visual() && (cfg.vis.own_use + cfg.vis.own_collect > 0.0),
+            low_conf: false,
         };
         let len = if cli.small { 8 } else { 40 + rng.usize(if cli.thorough() { 161 } else { 41 }) };
         let h = HistOpts { len, lifecycle_ops: true, clear_wasted: idx % 3 != 0, auto_waste_ops: rng.chance(0.5), batches: kind.is_batch(), empty_calls: true };
